@@ -1,0 +1,38 @@
+//go:build verif
+
+// Machine-checked contracts for package util (comment-only file; compiled only
+// under the build tag "verif", contains no code). Consumed by /verif/govc.
+package util
+
+//@ func FakeExprOf
+//@ prop C09 C13
+//@ pure
+//@ ensures result == typ
+
+// parenthesisation of composite literals in statement headers (C02): a composite literal is wrapped, the base of a
+// selector chain is treated likewise (in place), everything else is returned unchanged
+//@ func CheckParenExpr
+//@ prop C02
+//@ assigns all(ast.SelectorExpr.X)
+//@ ensures imp(typeis(x, *ast.CompositeLit), typeis(result, *ast.ParenExpr) && fresh(result.(*ast.ParenExpr)) && result.(*ast.ParenExpr).X == x)
+//@ ensures imp(!typeis(x, *ast.CompositeLit), result == x)
+//@ ensures imp(typeis(x, *ast.SelectorExpr) && typeis(old(x.(*ast.SelectorExpr).X), *ast.CompositeLit), typeis(x.(*ast.SelectorExpr).X, *ast.ParenExpr) && x.(*ast.SelectorExpr).X.(*ast.ParenExpr).X == old(x.(*ast.SelectorExpr).X))
+//@ ensures imp(typeis(x, *ast.SelectorExpr) && !typeis(old(x.(*ast.SelectorExpr).X), *ast.CompositeLit), x.(*ast.SelectorExpr).X == old(x.(*ast.SelectorExpr).X))
+
+//@ func AddrOf
+//@ prop C02
+//@ readonly
+//@ ensures typeis(result, *ast.UnaryExpr) && fresh(result.(*ast.UnaryExpr)) && result.(*ast.UnaryExpr).Op == token.AND && result.(*ast.UnaryExpr).X == v
+
+//@ func ElemFromBasicLit
+//@ prop C04 C03
+//@ readonly
+//@ requires v != nil && (v.Kind == token.INT || v.Kind == token.STRING || v.Kind == token.CHAR || v.Kind == token.FLOAT || v.Kind == token.IMAG)
+//@ ensures fresh(result) && result.Val == asI(v, ast.Expr) && result.Src == src && result.CVal == constant.MakeFromLiteral(v.Value, v.Kind, 0)
+//@ ensures typeis(result.Type, *types.Basic) && result.Type.(*types.Basic).Kind() == LitKind(v.Kind)
+
+//@ func toBasicKind
+//@ prop C04 C03
+//@ pure
+//@ requires 0 <= tok && tok <= 9
+//@ ensures imp(5 <= tok && tok <= 9, result == LitKind(tok))
